@@ -44,9 +44,10 @@ struct Cfg {
     std::string qsize; // "" = default, else value for all three OSMIUM_MAX_*_QUEUE_SIZE
     int mask;          // osm_entity_bits (node 1, way 2, relation 4, changeset 8)
     bool single, meta, pbf_pool, call_header;
+    bool slow = false;   // slow consumer: before every read() it waits until no other thread can run (queues full, back-pressure everywhere)
     std::string name() const {
         std::ostringstream s;
-        s << fmt << ",pool=" << pool << ",q=" << (qsize.empty() ? "def" : qsize) << ",mask=" << mask << (single ? ",single" : ",any") << (meta ? ",meta" : ",nometa") << (pbf_pool ? "" : ",pbfpool=off") << (call_header ? ",header" : "");
+        s << fmt << ",pool=" << pool << ",q=" << (qsize.empty() ? "def" : qsize) << ",mask=" << mask << (single ? ",single" : ",any") << (meta ? ",meta" : ",nometa") << (pbf_pool ? "" : ",pbfpool=off") << (call_header ? ",header" : "") << (slow ? ",slow" : "");
         return s.str();
     }
 };
@@ -71,7 +72,10 @@ void body(const Cfg& c) {
                                       c.meta ? osmium::io::read_meta::yes : osmium::io::read_meta::no,
                                       c.single ? osmium::io::buffers_type::single : osmium::io::buffers_type::any};
             if (c.call_header) reader.header();
-            while (osmium::memory::Buffer b = reader.read()) {
+            while (true) {
+                if (c.slow) vsched::quiesce();
+                osmium::memory::Buffer b = reader.read();
+                if (!b) break;
                 ++nbuffers;
                 osmium::item_type first = osmium::item_type::undefined;
                 for (const auto& o : b.select<osmium::OSMObject>()) {
@@ -134,6 +138,7 @@ int main(int argc, char** argv) {
             {fmt, pool, "", 5, false, false, true, false},
         };
         if (std::string(fmt) == "pbf") cover.push_back({fmt, pool, "2", 7, false, true, false, true});
+        { Cfg sc{fmt, pool, "2", 7, false, true, true, false}; sc.slow = true; cover.push_back(sc); }      // pipeline ahead of the consumer: every queue full before each read()
         // quick: bound 2 where an execution has few decision points (PBF ~120, o5m ~165; OPL ~230 on one configuration); the XML
         // reader has ~450 decision points per execution (~10^5 schedules per configuration at bound 2): bound <= 1 in quick
         for (auto& c : cover) {
